@@ -140,8 +140,13 @@ fn gen_text(t: &mut Tape) -> (String, String, bool) {
   let mut v = String::new();
   let mut sp = String::from("\"");
   let mut valid = true;
+  let mut after_backslash = 0usize;
   for _ in 0..n {
-    let cp: u32 = match t.weighted(&[40, 10, 10, 10, 10, 10, 10]) {
+    // text that merely looks like an escape: a backslash (spelled as an escape) followed by u, {, hex digits
+    let lookalike = after_backslash > 0 && t.chance(2, 3);
+    let cp: u32 = if lookalike {
+      *t.pick(&['u' as u32, 'u' as u32, '{' as u32, 'D' as u32, '8' as u32, '0' as u32, 'C' as u32, 'F' as u32, '}' as u32, 'n' as u32])
+    } else { match t.weighted(&[40, 10, 10, 10, 10, 10, 10]) {
       0 => t.range(0x20, 0x7e) as u32,
       1 => *t.pick(&[0x22u32, 0x5c, 0x2f, 0x08, 0x0c, 0x0a, 0x0d, 0x09]),
       2 => t.range(0xa0, 0x7ff) as u32,
@@ -149,7 +154,8 @@ fn gen_text(t: &mut Tape) -> (String, String, bool) {
       4 => t.range(0xe000, 0xfffd) as u32,
       5 => t.range(0x10000, 0x10fffd) as u32,
       _ => *t.pick(&[0u32, 0x1f, 0x7f, 0x80, 0x9f, 0x10000, 0x1f600, 0x20000, 0xfffff, 0x100000, 0x10ffff]),
-    };
+    } };
+    after_backslash = if cp == 0x5c { 6 } else { after_backslash.saturating_sub(1) };
     let c = char::from_u32(cp).unwrap();
     v.push(c);
     let hexcase = |t: &mut Tape, s: String| -> String { s.chars().map(|ch| if t.flag() { ch.to_ascii_uppercase() } else { ch.to_ascii_lowercase() }).collect() };
@@ -165,7 +171,7 @@ fn gen_text(t: &mut Tape) -> (String, String, bool) {
       0x09 => Some("\\t"),
       _ => None,
     };
-    let form = t.weighted(&[if raw_ok { 40 } else { 0 }, if short.is_some() { 30 } else { 0 }, 20, 20]);
+    let form = if lookalike { 0 } else { t.weighted(&[if raw_ok { 40 } else { 0 }, if short.is_some() { 30 } else { 0 }, 20, 20]) };
     match form {
       0 => sp.push(c),
       1 => sp.push_str(short.unwrap()),
@@ -189,7 +195,17 @@ fn gen_text(t: &mut Tape) -> (String, String, bool) {
   // invalid escapes (RFC 9682 2.1): lone / reversed surrogates, out-of-range or surrogate \u{...}, unknown escapes
   if t.chance(1, 8) {
     valid = false;
-    sp.push_str(*t.pick(&["\\uD800", "\\uDC00", "\\uDC00\\uD800", "\\uD83D x", "\\u{110000}", "\\u{D800}", "\\u{DFFF}", "\\q", "\\u12", "\\u{}", "\\u{1234567}", "\\x41"]));
+    if t.flag() {
+      sp.push_str(*t.pick(&["\\uD800", "\\uDC00", "\\uDC00\\uD800", "\\uD83D x", "\\u{110000}", "\\u{D800}", "\\u{DFFF}", "\\q", "\\u12", "\\u{}", "\\u{1234567}", "\\x41"]));
+    } else {
+      // a lone high surrogate followed by 0-3 ordinary characters / short escapes and then text that looks like
+      // the hex digits of a low surrogate (but is not an escape)
+      sp.push_str(*t.pick(&["\\uD800", "\\uD83D", "\\uDBFF", "\\ud83d"]));
+      for _ in 0..t.below(3) {
+        sp.push_str(*t.pick(&["X", "u", "\\n", "\\\\", "\\/", "Xu", "9"]));
+      }
+      sp.push_str(*t.pick(&["DC00", "DE00", "DFFF", "de00", "uDE00", ""]));
+    }
   }
   sp.push('"');
   (v, sp, valid)
